@@ -74,9 +74,9 @@ theorem pureOk {α : Type} (a : α) : (pure a : Except Err α) = .ok a := rfl
 theorem checkSig_empty {pk : Bytes} (hk : pubkeyOk env pk = true) : checkSig env [] pk = .ok false := by
   simp [checkSig, hk]
 
-theorem checkSig_valid (ag : Agree env ie) {pk sg : Bytes} (hv : ie.verifySig pk sg = true)
-    (hne : sg ≠ []) : checkSig env sg pk = .ok true := by
-  obtain ⟨h1, h2⟩ := ag.sig pk sg hv
+theorem checkSig_valid (ag : Agree env ie) {pk sg : Bytes} (h2 : pubkeyOk env pk = true)
+    (hv : ie.verifySig pk sg = true) (hne : sg ≠ []) : checkSig env sg pk = .ok true := by
+  have h1 := ag.sig pk sg hv
   have : sg.isEmpty = false := by cases sg <;> simp_all
   simp [checkSig, h1, h2, this]
 
@@ -104,7 +104,7 @@ theorem evalSig_sound (ag : Agree env ie) {pk : Bytes} (hk : pubkeyOk env pk = t
       · rename_i hv
         simp at h
         exact ⟨.sat, sg, c0, rfl, h.1.symm,
-          ⟨Or.inl rfl, fun _ => checkSig_valid ag hv e2, fun x => by simp at x⟩⟩
+          ⟨Or.inl rfl, fun _ => checkSig_valid ag hk hv e2, fun x => by simp at x⟩⟩
       · simp at h
 
 /-! ### leaves -/
@@ -972,7 +972,7 @@ theorem multiLoop_sound (ag : Agree env ie) {k : Nat} : ∀ (keysRev : List Byte
                 unfold mloop
                 have : ¬ (sigs.length + 1 > rest.length + 1) := by omega
                 have hne' : v.isEmpty = false := by cases v <;> simp_all
-                simp [this, hne', (ag.sig pk v hv).1, hm]
+                simp [this, hne', ag.sig pk v hv, hm]
             · simp only [hv] at hi
               have hi' : Interp.multiLoop ie k rest nSat (absS (v :: c1)) = .ok (a', cs) := by
                 simpa [he] using hi
